@@ -30,6 +30,7 @@ QUERYD = ("query", "disk", 25, 250, 30, 60)
 
 RESUME = ("resume", "mem", 60, 600, 40, 80)
 RESUMED = ("resume", "disk", 20, 200, 40, 80)
+RESUME2 = ("resume2", "mem", 40, 400, 40, 80)   # the checkpointed feed follows a named collection; the default collection is watched
 
 COLLS = ("colls", "mem", 30, 600, 40, 80)
 COLLSD = ("colls", "disk", 20, 400, 40, 80)
@@ -79,7 +80,7 @@ PROPS = {
                 what="on-disk histories with close/reopen in-process (restart) compared with the model; and fault enumeration: a child process "
                      "is SIGKILLed at instrumentation points (txn.begin, cas.afterwrite, txn.precommit, txn.committed, post.before, ...) and a "
                      "fresh process reopens and reads everything back"),
-    "C11": dict(modules=["Rosmar.Properties.C11", "Rosmar.Gen.TieFacts", "Rosmar.Gen.TieSqlBase", "Rosmar.Gen.TieSqlReadPins"], slices=[MULTI, MULTID, COLLS, COLLSD, VIEWM], proj=V.proj_all, isolation_search=True,
+    "C11": dict(modules=["Rosmar.Properties.C11", "Rosmar.Gen.TieFacts", "Rosmar.Gen.TieSqlBase", "Rosmar.Gen.TieSqlReadPins"], slices=[MULTI, MULTID, COLLS, COLLSD, VIEWM, RESUME2], proj=V.proj_all, isolation_search=True,
                 what="every key of every collection re-read after every operation on any collection"),
     "C03": dict(modules=["Rosmar.Properties.C03"], slices=[KV, KVD], proj=V.proj_all,
                 what="forced interleavings of compound calls (Update, WriteUpdateWithXattrs, WriteSubDoc, Incr) with other writers through the "
@@ -97,7 +98,7 @@ PROPS = {
                      "in-memory (pre-recorded iterator) and on-disk (streaming iterator)"),
     "C18": dict(modules=["Rosmar.Properties.C18"], slices=[SUBDOC, SUBDOCD], proj=V.proj_all,
                 what="WriteSubDoc / SubdocInsert / GetSubDocRaw over object documents, dotted paths of every kind, CAS classes"),
-    "C15": dict(modules=["Rosmar.Properties.C15", "Rosmar.Gen.TieSqlBackfill"], slices=[RESUME, RESUMED],
+    "C15": dict(modules=["Rosmar.Properties.C15", "Rosmar.Gen.TieSqlBackfill"], slices=[RESUME, RESUMED, RESUME2],
                 closing=["stopfeed fr", "rb c0 k0 n=" + RBN, "rb c0 k1 n=" + RBN, "rb c0 k2 n=" + RBN,
                          "feed fr c0 bf=resume prefix=cp dump=1", "drain fr"],
                 proj=P(rb=ROW, ev="*", results=True, ops={"feed", "stopfeed"}),
